@@ -56,9 +56,9 @@ class NumpyOrSetEncoder(json.JSONEncoder):
                 'shape': obj.shape
             }
         # Case for numpy scalars
-        if isinstance(obj, (np.int32, np.int64)):
+        if isinstance(obj, np.integer):
             return int(obj)
-        if isinstance(obj, (np.float32, np.float64, np.float128)):
+        if isinstance(obj, np.floating):
             return float(obj)
 
         # Case for built-in Python sets
